@@ -22,7 +22,7 @@ PROPS = {"cr": "covalent_radius", "cru": "covalent_radius_units", "crunc": "cova
          "cs": "crystal_structure", "nt": "neutron", "ns": "nuclear_spin", "na": "neutron_activation",
          "xr": "xray", "ka": "K_alpha", "kb": "K_beta1", "kau": "K_alpha_units", "kbu": "K_beta1_units",
          "mf": "magnetic_ff"}
-REGPROPS = ["cr", "cru", "crunc", "cs", "nt", "na", "xr", "ka", "kb", "kau", "kbu", "mf"]
+REGPROPS = ["cr", "cru", "crunc", "cs", "nt", "na", "xr", "ka", "kb", "kau", "kbu", "mf", "ns"]
 GROUPS = {"cov": ["cr", "cru", "crunc"], "cryst": ["cs"], "neut": ["nt", "ns"], "act": ["na"],
           "xray": ["xr"], "emis": ["ka", "kb", "kau", "kbu"], "mag": ["mf"]}
 GROUP_OF = dict((p, g) for g, ps in GROUPS.items() for p in ps)
@@ -122,10 +122,43 @@ def h(s):
     return hashlib.sha1(s.encode()).hexdigest()[:12]
 
 
+def _is_marker(p, v):
+    try:
+        if p == "nt":
+            return getattr(v, "b_c", None) == 99.5
+        if p in MARK:
+            return type(v) is type(MARK[p]) and v == MARK[p]
+    except Exception:
+        pass
+    return False
+
+
+def _is_mutated(p, v):
+    try:
+        if p == "cs":
+            return isinstance(v, dict) and v.get("symmetry") == "MUTATED"
+        if p == "nt":
+            return getattr(v, "b_c", None) == 12345.5
+        if p == "mf":
+            return v[2].j0 == (9.0,) * 7
+        if p == "na":
+            return v[0].thermalXS == 12345.5
+        if p == "xr":
+            return getattr(v, "marker", None) == "MUTATED"
+    except Exception:
+        pass
+    return False
+
+
 def classify(p, v):
-    """Outcome class of a successful read: P = missing-data placeholder / None, D = data."""
+    """Outcome class of a successful read: P = missing-data placeholder / None, D = data,
+    A = a value written by an assign event, M = a value changed in place by a mutate event."""
     if v is None:
         return "P"
+    if _is_mutated(p, v):
+        return "M"
+    if _is_marker(p, v):
+        return "A"
     if type(v).__name__ == "Neutron" and not v.has_sld() and getattr(v, "b_c", None) is None \
             and getattr(v, "coherent", None) is None:
         return "P"
@@ -173,7 +206,7 @@ def alpha():
                 at = atom(T, a)
             except Exception:
                 continue
-            for p in REGPROPS + ["ns"]:
+            for p in REGPROPS:
                 if PROPS[p] in vars(at):
                     inst.append("%s.%s.%s" % (T, a, p))
     return {"cls": cls, "inst": sorted(inst), "tp": tp}
@@ -216,7 +249,7 @@ def rep_outcomes(T):
     """Outcome of a read of every (representative atom, prop) on table T."""
     out = {}
     for a in ATOMS:
-        for p in REGPROPS + ["ns"]:
+        for p in REGPROPS:
             out[a + "." + p] = observe_read(T, a, p)
     return out
 
@@ -254,7 +287,7 @@ def mutable_ids(T):
                 except Exception:
                     continue
                 add(nm + "#served", v)
-    return dict((k, sorted(v)) for k, v in ids.items())
+    return dict((k, sorted(str(x) for x in v)) for k, v in ids.items())
 
 
 # ---- events -----------------------------------------------------------------
@@ -312,6 +345,12 @@ def do_mutate(T, a, p):
     """In-place change of the mutable value served for (T, a, p). Returns a description."""
     at = atom(T, a)
     v = getattr(at, PROPS.get(p, p))
+    was = classify(p, v)
+    _do_mutate(v, p)
+    return "ok:P" if was == "P" else "ok"
+
+
+def _do_mutate(v, p):
     if p == "cs":
         v["symmetry"] = "MUTATED"
     elif p == "nt":
@@ -326,7 +365,6 @@ def do_mutate(T, a, p):
         v.nsf_table[1][0] = 12345.5
     else:
         raise KeyError(p)
-    return "ok"
 
 
 def execute_event(ev):
@@ -342,7 +380,10 @@ def execute_event(ev):
             return {"cls": "X", "exc": type(e).__name__}
         return {"cls": "T" if r else "F"}
     if op == "import":
-        importlib.import_module("periodictable." + ev["m"])
+        try:
+            importlib.import_module("periodictable." + ev["m"])
+        except Exception as e:
+            return {"cls": "X", "exc": type(e).__name__, "msg": str(e)[:100]}
         return {"cls": "ok"}
     if op == "calc":
         try:
@@ -376,7 +417,8 @@ def execute_event(ev):
                 n.b_c = 99.5
                 setattr(at, "neutron", n)
             else:
-                setattr(at, PROPS.get(p, p), MARK[p])
+                import copy
+                setattr(at, PROPS.get(p, p), copy.deepcopy(MARK[p]))
         except Exception as e:
             return {"cls": "X", "exc": type(e).__name__, "msg": str(e)[:100]}
         return {"cls": "ok"}
